@@ -194,7 +194,13 @@ func (c *ctx) check(sc scenario, tees []int, class string) (base result) {
 		// `Secure` in State() implies TLS observable at the peer: whatever the connection is
 		// (a wrapper with a ConnectionState() method is not TLS), a session that says Secure
 		// has sent a ClientHello, and nothing it writes afterwards is readable on the wire
-		if strings.HasPrefix(res.outcome, "done.") && res.state&uint8(xmpp.Secure) != 0 {
+		scriptedSecure := false // an instrumented feature was told to return the Secure bit itself
+		for _, p := range res.picks {
+			if p.id != 0 && p.res.mask&uint8(xmpp.Secure) != 0 {
+				scriptedSecure = true
+			}
+		}
+		if strings.HasPrefix(res.outcome, "done.") && res.state&uint8(xmpp.Secure) != 0 && !scriptedSecure {
 			f := strings.Split(res.outcome, ".")
 			if len(res.sni) == 0 || len(f) < 3 || f[2] != "1" {
 				r.Fail("secure-without-tls", teeK+"/"+connKinds[sc.ck], lines, fmt.Sprintf("State() has Secure on a %s, but the peer saw %d ClientHello(s) and the probe written through the session %s", connKinds[sc.ck], len(res.sni), map[bool]string{true: "is protected", false: "is readable in clear text on the wire"}[len(f) >= 3 && f[2] == "1"]))
